@@ -44,11 +44,14 @@ type Decimal struct {
 }
 
 // NewDecimal creates a new decimal whose value is equal to n * 10^exp.
+// negZero selects the negative zero and is ignored unless n is zero.
 func NewDecimal(n *big.Int, exp int32, negZero bool) *Decimal {
 	return &Decimal{
-		n:         n,
-		scale:     -exp,
-		isNegZero: negZero,
+		n:     n,
+		scale: -exp,
+		// String and the writers print "-0" for a negative zero without looking
+		// at n, so the flag must never be set on a non-zero coefficient.
+		isNegZero: negZero && n != nil && n.Sign() == 0,
 	}
 }
 
